@@ -60,7 +60,7 @@ def main():
             coqcopy, work = wt + ".coq", wt + ".work"
             shutil.copytree(os.path.join(VERIF, "coq"), coqcopy)
             t0 = time.time()
-            rc = sh(f"cd {VERIF} && VERIF_REPO={wt} VERIF_COQ={coqcopy} VERIF_WORK={work} VERIF_COQCHK=0 "
+            rc = sh(f"cd {VERIF} && VERIF_REPO={wt} VERIF_COQ={coqcopy} VERIF_WORK={work} VERIF_OUT={wt}.out VERIF_COQCHK=0 "
                     f"timeout 3000 ./check {pid} --tier quick")
             rec["check_rc"] = rc.returncode
             rec["check_wall_s"] = round(time.time() - t0, 1)
@@ -68,6 +68,7 @@ def main():
             rec["detected"] = rc.returncode == 1 and "VIOLATION property=" + pid in rc.stdout
             rec["detected_with_failing_input"] = rec["detected"] and "no-failing-input-found" not in rc.stdout
             shutil.rmtree(coqcopy, ignore_errors=True)
+            shutil.rmtree(wt + ".out", ignore_errors=True)
             shutil.rmtree(work, ignore_errors=True)
             ok = rec.get("demo_without_change_rc") == 0 and rec.get("demo_with_change_rc", 0) != 0
             rec["confirmed"] = ok
